@@ -449,18 +449,39 @@ def full_read(env):
     return [cint(i) for i in env.read()]
 
 
-def partial_read(env, k):
-    """take k items and drop the iterator; returns (items, exhausted)"""
+class _ConsumerStop(Exception):
+    pass
+
+
+def partial_read(env, k, how="del"):
+    """take k items and drop the iterator; returns (items, exhausted).  `how` = the way the consumer abandons the read: "del" (the
+    reference is dropped), "close" (`it.close()`), "break" (a `for` loop left with `break`), "raise" (the consumer's loop body raises
+    after k items and the exception is handled outside the loop) — in each the generator is closed while suspended at a `yield`"""
     it = iter(env.read())
     out = []
     exhausted = False
     try:
-        for _ in range(k):
+        if how in ("break", "raise") and k > 0:
+            exhausted = True
             try:
-                out.append(cint(next(it)))
-            except StopIteration:
-                exhausted = True
-                break
+                for x in it:
+                    out.append(cint(x))
+                    if len(out) >= k:
+                        exhausted = False
+                        if how == "raise":
+                            raise _ConsumerStop()
+                        break
+            except _ConsumerStop:
+                pass
+        else:
+            for _ in range(k):
+                try:
+                    out.append(cint(next(it)))
+                except StopIteration:
+                    exhausted = True
+                    break
+            if how == "close" and hasattr(it, "close"):
+                it.close()
     finally:
         del it
         gc.collect()
@@ -493,7 +514,7 @@ def run_history(case, tmp):
                 o.read_done = True
                 outs.append({"full": seq, "calls": watch.get("_calls", [None])[0]})
             elif op == "partial":
-                seq, exhausted = partial_read(o.env, h["k"])
+                seq, exhausted = partial_read(o.env, h["k"], h.get("how", "del"))
                 if exhausted:
                     o.read_done = True
                 outs.append({"partial": seq, "exhausted": exhausted, "calls": watch.get("_calls", [None])[0]})
@@ -2309,6 +2330,139 @@ def _c04_bool_expr(node, var):
     return None
 
 
+# ----------------------------------------------------------------------------------------------
+# Phase 6 translator piece: what runs when a read is ABANDONED (the generator is closed while suspended at a `yield`)
+C04_ABANDON_FILES = ["coba/primitives.py", "coba/environments/core.py", "coba/environments/filters.py", "coba/environments/supervised.py",
+                     "coba/environments/synthetics.py", "coba/environments/serialized.py", "coba/pipes/filters.py", "coba/pipes/sources.py"]
+
+
+def _c04_own(nodes):
+    """the nodes below `nodes` that belong to the same function body (nested functions / classes / lambdas are other frames)"""
+    import ast
+    stack = list(nodes)
+    while stack:
+        n = stack.pop()
+        yield n
+        for c in ast.iter_child_nodes(n):
+            if not isinstance(c, (ast.FunctionDef, ast.AsyncFunctionDef, ast.ClassDef, ast.Lambda)):
+                stack.append(c)
+
+
+def _c04_yields(nodes):
+    import ast
+    return any(isinstance(n, (ast.Yield, ast.YieldFrom)) for n in _c04_own(nodes))
+
+
+def c04_abandon_scan(tree):
+    """-> (rows, lines): rows = [(qualname, kind 'try'|'with', names, has_finally)] for every `try` / `with` statement of a generator
+    function whose protected region contains a `yield` (source order); lines = {lineno: (qualname, 'header'|'with'|'body')} for
+    the handler header lines, the `with` lines and the lines inside handler / finally bodies of those statements"""
+    import ast
+    rows, lines = [], {}
+
+    def hnames(h):
+        if h.type is None:
+            return ["<bare>"]
+        if isinstance(h.type, ast.Tuple):
+            return [ast.unparse(e) for e in h.type.elts]
+        return [ast.unparse(h.type)]
+
+    def visit(node, qual):
+        for c in ast.iter_child_nodes(node):
+            if isinstance(c, ast.ClassDef):
+                visit(c, qual + [c.name])
+            elif isinstance(c, (ast.FunctionDef, ast.AsyncFunctionDef)):
+                q = ".".join(qual + [c.name])
+                found = []
+                for n in _c04_own(c.body):
+                    if isinstance(n, ast.Try) and (_c04_yields(n.body) or _c04_yields(n.orelse) or any(_c04_yields(h.body) for h in n.handlers)):
+                        found.append((n.lineno, (q, "try", sorted(sum([hnames(h) for h in n.handlers], [])), bool(n.finalbody))))
+                        for h in n.handlers:
+                            lines[h.lineno] = (q, "header")
+                            for b in _c04_own(h.body):
+                                if hasattr(b, "lineno"):
+                                    lines[b.lineno] = (q, "body")
+                        for b in _c04_own(n.finalbody):
+                            if hasattr(b, "lineno"):
+                                lines[b.lineno] = (q, "body")
+                    elif isinstance(n, (ast.With, ast.AsyncWith)) and _c04_yields(n.body):
+                        found.append((n.lineno, (q, "with", [ast.unparse(i.context_expr) for i in n.items], False)))
+                        lines.setdefault(n.lineno, (q, "with"))
+                rows.extend(r for _, r in sorted(found, key=lambda t: t[0]))
+                visit(c, qual + [c.name])
+    visit(tree, [])
+    return rows, lines
+
+
+def c04_abandon_table(repo):
+    """[(file, qualname, kind, names, finally)] over the anchored files, in file / source order"""
+    import ast
+    out = []
+    for rel in C04_ABANDON_FILES:
+        with open(os.path.join(repo, *rel.split("/")), encoding="utf-8") as f:
+            rows, _ = c04_abandon_scan(ast.parse(f.read()))
+        out += [(rel,) + r for r in rows]
+    return out
+
+
+C04_ABANDON_LINES = {}
+
+
+def c04_abandon_lines():
+    """{absolute file name: {lineno: (qualname, kind)}} of the anchored files of the repo under test (parsed once per process)"""
+    import ast
+    if not C04_ABANDON_LINES:
+        repo = os.path.realpath(os.environ.get("COBA_REPO", "/repo"))
+        for rel in C04_ABANDON_FILES:
+            path = os.path.join(repo, *rel.split("/"))
+            try:
+                with open(path, encoding="utf-8") as f:
+                    _, lines = c04_abandon_scan(ast.parse(f.read()))
+            except Exception:
+                lines = {}
+            C04_ABANDON_LINES[os.path.realpath(path)] = (rel, lines)
+    return C04_ABANDON_LINES
+
+
+def abandon_observe(env, k):
+    """open a read, take k items, then DROP the iterator with a line tracer installed: -> sorted [(file, function, kind)] of the source
+    lines of the anchored coba files that ran while the generators of the pipeline were being closed (kind: 'header' = an
+    `except …:` line that was tested, 'with' = the `with` line whose manager is left, 'body' = a line inside a handler / finally
+    body, 'other' = any other line), and how many items were taken"""
+    import sys
+    table = c04_abandon_lines()
+    seen = set()
+
+    def local(frame, event, arg):
+        if event == "line":
+            rel, lines = table[frame.f_code.co_filename] if frame.f_code.co_filename in table else table[os.path.realpath(frame.f_code.co_filename)]
+            q, kind = lines.get(frame.f_lineno, (getattr(frame.f_code, "co_qualname", frame.f_code.co_name), "other"))
+            seen.add((rel, q, kind))
+        return local
+
+    def tracer(frame, event, arg):
+        fn = frame.f_code.co_filename
+        if fn in table or (fn.endswith(".py") and os.path.realpath(fn) in table):
+            return local
+        return None
+    it = iter(env.read())
+    got = 0
+    for _ in range(k):
+        try:
+            next(it)
+            got += 1
+        except StopIteration:
+            break
+    old = sys.gettrace()
+    sys.settrace(tracer)
+    try:
+        del it
+        gc.collect()
+    finally:
+        sys.settrace(old)
+    return sorted(seen), got
+
+
 def c04_translate(repo):
     """-> (dict of extracted values, list of names that could not be extracted)"""
     import ast
@@ -2460,6 +2614,16 @@ def c04_translate(repo):
         m = _c04_find_method(_c04_find_class(ser, "EnvironmentsToObjects"), "_env_to_objects")
         return [n.args[1].value for n in ast.walk(m) if isinstance(n, ast.Call) and _c04_callname(n) == "islice" and len(n.args) == 2]
     guard("saveBatchSizes", save_batches, [1000, 1000])
+
+    def abandon_rows():
+        return c04_abandon_table(repo)
+    guard("abandonRows", abandon_rows, [])
+
+    def cache_fill():
+        rows, _ = c04_abandon_scan(pf)
+        mine = [r for r in rows if r[0] == "Cache.filter" and r[1] == "try"]
+        return (mine[0][2], mine[0][3]) if len(mine) == 1 else "?"
+    guard("cacheFill", cache_fill, ([], False))
     return V, miss
 
 
@@ -2533,6 +2697,13 @@ def c04_generated_text(V, miss):
          "def batchSafeJoin : List String := " + strs(V["batchSafeJoin"]),
          "/-- `islice(I, n)` sizes in `EnvironmentsToObjects._env_to_objects` (first batch, later batches) -/",
          "def saveBatchSizes : List Nat := [" + ", ".join(str(int(x)) for x in V["saveBatchSizes"]) + "]",
+         "/-- every `try` / `with` statement of a generator function of the anchored files whose protected region holds a `yield`:",
+         "(file, function, \"try\" | \"with\", exception classes of the handlers (sorted; `<bare>` = bare except) | context managers, has `finally`) -/",
+         "def abandonRows : List (String × String × String × List String × Bool) := [" + ", ".join(
+             "(%s, %s, %s, %s, %s)" % (s(f), s(q), s(k), strs(ns), b(fin)) for f, q, k, ns, fin in V["abandonRows"]) + "]",
+         "/-- the handlers and the `finally` flag of the one `try` around the `yield`s of `pipes.Cache.filter` -/",
+         "def cacheFillHandlers : List String := " + strs(V["cacheFill"][0]),
+         "def cacheFillFinally : Bool := " + b(V["cacheFill"][1]),
          "def extracted : Bool := " + b(not miss),
          "end Coba.C04.Generated", ""]
     return "\n".join(L)
@@ -2643,7 +2814,8 @@ class C04(Property):
             "8% are fitting-window cases (from_lambda over caller-owned dyadic dense contexts, optionally held by cache()/materialize(), 1-4 Scale / Impute stages with "
             "every shift / scale / statistic / window size, optional params / take, 3-6 full and abandoned reads): contexts of every read predicted by Model/C11 "
             "(tolerance 1e-9 relative), delivered context OBJECTS compared by id() with the addresses of the aliasing model; "
-            "falsy seeds (0, 0.0) and caller-written PMF logging policies are generated for logged()")
+            "falsy seeds (0, 0.0) and caller-written PMF logging policies are generated for logged(); abandoned reads are dropped by del (generated), and by "
+            "close() / break / an exception in the consumer's loop in 16 pinned histories")
     trusted_base = [
         "filters that rewrite interaction content (Repr, Flatten, Sparsify, Densify) and Finalize's stateless part are REAL functions in the driver (Model/C10 on the "
         "interaction content, which the harness encodes with C10's codec; contents are matched to interned interactions through their observables); "
@@ -2661,12 +2833,16 @@ class C04(Property):
         "of fresh pipelines (private attribute names, values canonicalised) and checked against the Lean stageTable through the driver",
         "Noise(context=('i',lo,hi), seed) is a REAL function in the fitting-window family (draws of CobaRandom(seed).randint through Model/C05); gaussian noise is not modelled",
         "pickle / zip I/O produce observationally equal, unshared copies",
-        "CPython drops (closes) an abandoned generator as soon as its last reference disappears",
+        "CPython drops (closes) an abandoned generator as soon as its last reference disappears; that NO stage code runs then is no longer trusted: every try / with "
+        "around a yield in the anchored files is extracted (Generated.abandonRows), proved silent (abandon_table_matches_source) and observed with a line tracer while "
+        "real abandoned reads are closed (abandon_tie); a real pipes.Cache driven through session histories is compared with cacheSessX field by field",
     ]
     assumptions = ["openml and optional-package sources/filters (pandas, torch, vowpalwabbit) excluded",
                    "interleaved reads of two pipelines that share an unfinished Cache are treated like concurrent reads (outside the property)",
                    "time-seeded filters (seed None) excluded"]
     partial_theorems = {
+        "cache_abandon_history": "hypothesis x != dropIter: what runs when the generator is closed is nothing (the source, abandon_table_matches_source) or the handler's reset; "
+                                 "cache_finally_counterexample shows a `finally: self._iter = None` breaks it",
         "no_stage_writes_input_general": "hypothesis: no stage writes into the objects it is handed (alloc / share / pick only); fit_inplace_counterexample shows it is necessary for "
                                          "Scale written back into held contexts; fit_stages_do_not_write discharges it for Scale / Impute / Noise as modelled",
         "fit_kept_iterator_partial": "a stage keeping ONE upstream iterator between reads agrees with the real stage only until something has been pulled; "
@@ -2713,7 +2889,7 @@ class C04(Property):
                 f.write(body)
         return ["C04 stage table from source: stateful env %s, pipes %s, sources %s; held %s; cache() %s, materialize() %s, save batches %s%s"
                 % (V["envStateful"], V["pipeStateful"], V["srcStateful"], V["envHeld"] + V["pipeHeld"] + V["srcHeld"], V["shortcutCache"],
-                   V["materializeCache"], V["saveBatchSizes"], "" if not miss else " (NOT extracted: %s — source reshaped)" % ", ".join(miss))]
+                   V["materializeCache"], V["saveBatchSizes"], "; try/with around a yield: %s" % [(q, k, ns, fin) for _, q, k, ns, fin in V["abandonRows"]] + ("" if not miss else " (NOT extracted: %s — source reshaped)" % ", ".join(miss)))]
 
     def state_tie(self, case, fails, tags, driver, tmp):
         """(A) for the stage table: every attribute of a pipe object that changes between reads of a fresh pipeline must be allowed by the
@@ -2737,6 +2913,81 @@ class C04(Property):
                 fails.append(F("A", "Environments.cache() appended a Cache with %s, the model's step appends %s" % (consts["shortcutCache"], want), "A:stage-table:cache-shortcut"))
             if consts["chunk"] != ["Chunk", "Cache"]:
                 fails.append(F("A", "Environments.chunk() appended %s, the model's step appends Chunk, Cache" % consts["chunk"], "A:stage-table:chunk-shortcut"))
+
+    def abandon_tie(self, case, fails, tags, driver, tmp):
+        """(A) for the abandon table and the explicit Cache session (`cacheSessX`): (1) a read of a fresh pipeline is dropped after k items
+        under a line tracer; every source line of the anchored files that ran while the generators were closed must be allowed by the model's
+        `abandonTable` (a tested `except` line / a left `with`; never a handler or `finally` body); (2) a real `pipes.Cache(sz)` over
+        range(N) is driven through a history of complete / abandoned / never started sessions; `_cache`, `_iter` after every session and the
+        items every session delivers must be the model's"""
+        h = zlib.crc32(("abandon/" + cjson(case)).encode("utf-8"))
+        k = [1, 2, 26, 3][h % 4]
+        envs, _ = build(case, tmp)
+        env = envs[member_of(case)]
+        try:
+            obs, got = abandon_observe(env, k)
+        except BaseException as e:
+            if not trappable(e):
+                raise
+            tags.append("abandon-check:unreadable")
+            obs, got = None, 0
+        if obs is not None and (h >> 5) % 4 == 0:
+            # the same pipeline saved and reloaded: the abandoned read closes ZipMemberToObjects.read inside its `with` / `try`
+            try:
+                envs2, _ = build(case, tmp)
+                saved = envs2.save(os.path.join(tmp, "abandon_%d.zip" % len(os.listdir(tmp))))
+                obs2, _ = abandon_observe(saved[member_of(case)], k)
+                obs = sorted(set(obs) | set(obs2))
+                tags.append("abandon-check:saved")
+            except BaseException as e:
+                if not trappable(e):
+                    raise
+                tags.append("abandon-check:save-fails")
+        n = [0, 1, 5, 26, 51, 7][(h >> 3) % 6]
+        sz = [None, 1, 2, 3, 25, 25][(h >> 7) % 6]
+        menu = [None, 1, 2, 3, 24, 25, 26, 50, "all", n, n + 1, max(n - 1, 0)]
+        reads = [menu[(h >> (11 + 4 * i)) % len(menu)] for i in range(4)] + ["all"]
+        import coba.pipes as cp
+        c = cp.Cache(sz)
+        real, sent = [], []
+        for d in reads:
+            it = iter(c.filter(range(n)))
+            if d is None or d == 0:
+                seq, sd = [], None
+            elif d == "all":
+                seq, sd = list(it), "all"
+            else:
+                seq, sd = [], d
+                for _ in range(d):
+                    try:
+                        seq.append(next(it))
+                    except StopIteration:
+                        sd = "all"
+                        break
+            del it
+            sent.append(sd)
+            real.append({"cache": None if c._cache is None else len(c._cache), "iter": c._iter is not None, "seq": seq})
+        ans = driver.ask({"abandon": {"obs": [list(o) for o in (obs or [])], "cache": {"sz": sz, "n": n, "reads": sent}}})
+        if obs is not None:
+            tags.append("abandon-check")
+            tags.append("abandon-at:%s" % ("0" if got == 0 else "end" if got < k else str(k)))
+            for o, ok in zip(obs, ans["allowed"]):
+                if ok:
+                    tags.append("abandon:%s:%s" % (o[1], o[2]))
+                else:
+                    fails.append(F("A", "while a read abandoned after %d items was being closed, a source line of %s (%s) ran (%s): the model's abandon table "
+                                        "says no stage code runs when a read is dropped" % (got, o[1], o[0], o[2]), "A:abandon-table:runs:%s:%s" % (o[1], o[2])))
+        prev = list(range(n))
+        for i, (r, m, d) in enumerate(zip(real, ans["cache"], sent)):
+            want = prev if d == "all" else [] if d is None else prev[:d]
+            if r["seq"] != want or r["cache"] != m["cache"] or r["iter"] != m["iter"]:
+                fails.append(F("A", "pipes.Cache(%r) over range(%d), sessions %r: session %d delivered %r / left _cache of %r items, _iter alive=%r; the model's "
+                                    "session delivers %r / leaves %r, %r" % (sz, n, sent, i, r["seq"][:8], r["cache"], r["iter"], want[:8], m["cache"], m["iter"]),
+                               "A:cache-session:%s" % ("all" if d == "all" else "none" if d is None else "pull")))
+                break
+            prev = m["next"]
+        tags.append("cache-session-model")
+        tags.append("cache-session:sz=%s" % sz)
 
     def generate(self, rng, tier):
         if rng.chance(0.03):
@@ -2852,6 +3103,18 @@ class C04(Property):
         cs.append({"src": lam, "chain": [{"m": "cache"}], "hist": [part(2), {"op": "pickle", "on": 0}, {"op": "full", "on": 1}, full]})
         cs.append({"src": lam, "chain": [], "hist": [{"op": "cache", "on": 0}, part(2, 1), {"op": "cache", "on": 1}, part(30, 2), {"op": "full", "on": 2}, {"op": "materialize", "on": 2}, {"op": "full", "on": 3}]})
         cs.append({"src": lam, "chain": [{"m": "chunk", "a": [True]}], "hist": [part(26), {"op": "save", "on": 0}, {"op": "full", "on": 1}, full, {"op": "params", "on": 1}]})
+        # phase 6: the ways a consumer abandons a read — `it.close()`, `break` out of a `for` loop, an exception raised by the loop body
+        # (besides dropping the reference, which every other partial step does); each closes the generators at a `yield`
+        def parth(k, how, on=0):
+            return {"op": "partial", "on": on, "k": k, "how": how}
+        for how in ("close", "break", "raise"):
+            cs.append({"src": lam, "chain": [{"m": "cache"}], "hist": [parth(1, how), parth(26, how), full, parth(3, how), full, par]})
+            cs.append({"src": lin, "chain": [logged, {"m": "shuffle", "a": [4]}], "hist": [full, parth(2, how), full, par]})
+            cs.append({"src": lam, "chain": [{"m": "chunk", "a": [True]}], "hist": [parth(26, how), {"op": "save", "on": 0}, {"op": "full", "on": 1}, parth(2, how, 1), {"op": "full", "on": 1}, full]})
+            cs.append({"src": csv, "chain": [], "hist": [parth(1, how), full, parth(2, how), full, par]})
+            cs.append({"src": lam, "chain": [], "hist": [{"op": "cache", "on": 0}, parth(2, how, 1), {"op": "pickle", "on": 1}, {"op": "full", "on": 2}, {"op": "full", "on": 1}]})
+        cs.append({"src": lam, "chain": [{"m": "cache"}, {"m": "shuffle", "a": [2]}, {"m": "cache"}],
+                   "hist": [parth(1, "close"), parth(27, "break"), parth(3, "raise"), part(1), full, full, par]})
         # sources that know their params only once read; one-shot zip; lazy rows
         for src in (xy, rows, csv):
             cs.append({"src": src, "chain": [], "hist": [par, full, par, full, {"op": "save", "on": 0}, {"op": "params", "on": 1}, {"op": "full", "on": 1}]})
@@ -3342,6 +3605,7 @@ class C04(Property):
                     self.grounded_pipeline(case, fails, tags, driver, tmp)
                 if zlib.crc32(cjson(case).encode("utf-8")) % 3 == 0:       # a fixed third of the cases (a function of the case, not of the stream)
                     self.state_tie(case, fails, tags, driver, tmp)
+                    self.abandon_tie(case, fails, tags, driver, tmp)
             except BaseException as e:
                 if not trappable(e):
                     raise
